@@ -402,6 +402,7 @@ func runC04(c *Ctx, r *Report) {
 	}
 	// writes to a variable outside of the current frame are misses whatever it held
 	c.checkOuterWritesAreMisses(r, "C04.R2")
+	c.checkMissChargedToReceiver(r, "C04.R2")
 	// evalDelete: TriggerNoCache before any return
 	{
 		fn := c.SSAFn(c.Fn("eval", "State.evalDelete"))
